@@ -1,5 +1,5 @@
 #!/bin/bash
 # usage: seed2_prep.sh <ID> <j>  -- lays out round-2 sub-agent output (change-j.diff, demo-j.py, notes.md) as a seed dir for seed_eval.sh
-ID=$1; J=$2; S=/tmp/seed2/out/$ID; D=/tmp/seed2/eval/$ID-$J
+ID=$1; J=$2; S=${SEEDROOT:-/tmp/seed2}/out/$ID; D=${SEEDROOT:-/tmp/seed2}/eval/$ID-$J
 mkdir -p $D; cp $S/change-$J.diff $D/patch.diff; cp $S/demo-$J.py $D/demo.py; cp $S/notes.md $D/notes.md
 echo $D
